@@ -56,17 +56,18 @@ theorem addDests_spec (env : Env) (w : World) (ds : List Nat) :
   split
   · exact ⟨rfl, id⟩
   · have key : ∀ (buf : List Msg) (w1 : World),
-        (buf.foldl (fun acc m => acc.send env m) w1).ctx = w1.ctx ∧
-        (WInv w1 → WInv (buf.foldl (fun acc m => acc.send env m) w1)) := by
+        (buf.foldl (fun acc m => acc.popPending.send env m) w1).ctx = w1.ctx ∧
+        (WInv w1 → WInv (buf.foldl (fun acc m => acc.popPending.send env m) w1)) := by
       intro buf
       induction buf with
       | nil => intro w1; exact ⟨rfl, id⟩
       | cons m ms ih =>
         intro w1
-        have f := frame_send env w1 m
-        obtain ⟨h1, h2⟩ := ih (w1.send env m)
+        have f := (frame_popPending w1).trans (frame_send env w1.popPending m)
+        obtain ⟨h1, h2⟩ := ih (w1.popPending.send env m)
         exact ⟨h1.trans f.ctx, fun h => h2 (Frame.winv f h)⟩
-    obtain ⟨h1, h2⟩ := key w.buffer { w with anyAdded := true, dests := ds, buffer := [] }
+    obtain ⟨h1, h2⟩ := key w.buffer
+      { w with anyAdded := true, dests := ds, buffer := [], pendingAt := w.bufferAt, bufferAt := [], dupAdd := w.dupAdd || hasDup ds }
     exact ⟨h1, fun h => h2 h⟩
 
 /-- The combined statement proved by induction: context restored, bookkeeping invariant kept. -/
